@@ -50,6 +50,7 @@ type pkixCase struct {
 	Roots  []int              `json:"roots"`
 	Q      struct {
 		Time   int      `json:"time"`
+		Sub    int      `json:"sub"` // half seconds beyond Time
 		Name   string   `json:"name"`
 		Kind   string   `json:"kind"`
 		Usages []string `json:"usages"`
@@ -235,7 +236,7 @@ func runPKIX(pc *pkixCase, maxOrders int) (pkixObs, error) {
 			o.Orders = append(o.Orders, res)
 			continue
 		}
-		opts := x509.VerifyOptions{Roots: roots, Intermediates: inter, CurrentTime: day(pc.Q.Time).Add(time.Hour), DNSName: pc.Q.Name, KeyUsages: usages}
+		opts := x509.VerifyOptions{Roots: roots, Intermediates: inter, CurrentTime: day(pc.Q.Time).Add(time.Duration(pc.Q.Sub) * 500 * time.Millisecond), DNSName: pc.Q.Name, KeyUsages: usages}
 		res.Panic = recoverStr(func() {
 			chains, err := certs[pc.Leaf].Verify(opts)
 			res.OK = err == nil
